@@ -15,7 +15,7 @@ PLAIN_IDENTS = ["a", "b", "c", "t", "u", "id", "v"]
 
 class Gen:
     def __init__(self, rng, backend="pg", plain=False, allow_panic=True, max_depth=4, subqueries=True,
-                 ops=None, weird_strings=True, no_marks=False, parseable=False):
+                 ops=None, weird_strings=True, no_marks=False, parseable=False, value_pool=None):
         self.r = rng
         self.b = backend
         self.plain = plain            # only plain identifiers / simple values
@@ -26,6 +26,10 @@ class Gen:
         self.weird = weird_strings
         self.no_marks = no_marks      # no placeholder marks in user-supplied raw SQL, no doubled marks
         self.parseable = parseable    # only constructs the oracle parser understands (no raw SQL text)
+        # ready-made `v:<term>:<encoding>` atoms of every value kind (tools/richvalues.py make_value_pool); only the
+        # renderer-correspondence checks pass one (C01, C02, C11): the oracles of C05-C10 parse or execute the SQL
+        # and are not prepared for these literals.  Without a pool the random stream is exactly as before.
+        self.value_pool = value_pool
 
     # ---- leaves ----
     def ident(self):
@@ -40,6 +44,8 @@ class Gen:
 
     def value(self):
         r = self.r
+        if self.value_pool and r.random() < 0.25:
+            return r.choice(self.value_pool)
         k = r.random()
         if k < 0.45:
             tag = r.choice(["i32", "i32", "i32", "i64", "u8", "i8", "u32", "u64", "i16", "u16"])
